@@ -24,13 +24,13 @@ CLAIMED = {
  "C13": dict(text="SMT (z3 + cvc5, QF_LRA) over ALL character histograms of any size: with the letter models exported by the real detect_alphabet (guarded hook) and the participation mask probed from the real function, the solver shows that all-nucleotide input is always classified nucleotide and that >= 1/4 protein-only letters are always classified protein (U-rich case excluded as a recorded known finding), with an explicit IEEE rounding band; CBMC shows the function reads nothing but the histogram.",
              note="Trusted: linear structure of the function (re-validated against the real function on 3000+ histograms per run), rounding bound 130*2^-53, libm log as executed. One source hook (KALIGN_VERIF).", ref="DESIGN.md §4 C13",
              technique="z3/cvc5 QF_LRA over the linear decision function extracted from the running code on every run; CBMC for histogram-only dependence"),
- "C02": dict(text="Bounded model checking over ALL interleavings: the real recursive_aln with its OpenMP task pragmas mechanically rewritten into CBMC threads (taskwait -> join on a per-frame counter) runs on every concrete guide tree up to the leaf bound; a recorder in place of do_align asserts that no merge starts before both inputs are complete, every node is merged once, and everything is finished when the root returns. Removing a taskwait is reported with an interleaving.",
-             note="Trusted: the pragma->thread rewrite (vk/omp.py, diffable, regenerated each run; per-merge DP memory dropped from the ordering model because CBMC refuses pointer stores into shared objects), CBMC's SC interleaving semantics. The real libgomp scheduler, weak memory, trees > 4 leaves, the parallel Hirschberg halves and k-means tasks are outside (DESIGN.md §7); footprint disjointness is argued from C01/C10 harnesses, not re-proved here.", ref="DESIGN.md §4 C02"),
+ "C02": dict(text="Bounded model checking over ALL interleavings: the real recursive_aln and aln_runner, with their OpenMP task pragmas mechanically rewritten into CBMC threads (taskwait -> join on a per-frame counter), run on every concrete guide tree up to the leaf bound (short and >= 500-residue variants) and on a >= 500-row Hirschberg step for each kernel family; recorders in place of do_align / the DP kernels assert that no merge starts before both inputs are complete, every node is merged once, and the meet-in-the-middle step starts only after both halves finished on the right rectangle halves. Sequential CBMC runs of the real forward / backward passes with the other half's state array INVALID show the two concurrent halves have disjoint footprints.",
+             note="Trusted: the pragma->thread rewrite (vk/omp.py, diffable, regenerated each run; per-merge DP memory dropped from the ordering model because CBMC refuses pointer stores into shared objects), CBMC's SC interleaving semantics. Outside: the real libgomp scheduler and weak memory (SC-for-DRF argument), trees > 4 leaves, k-means tasks, the distance-matrix loop, parallel regions executed by a whole team.", ref="DESIGN.md §4 C02"),
  "C03": dict(text="Bounded model checking: the real canonical-sort comparator is a strict total order on distinct (length, name) records and the sorted array is identical for every (symbolic) permutation of the input; rank restoration returns the caller's order; UPGMA on a symbolic matrix is deterministic and joins the first strict minimum in canonical scan order; pairwise distances do not read the caller's rank.",
              note="Trusted: qsort model (any conforming qsort agrees once the comparator is a strict order - which is what is proved), names <= 2 bytes, <= 4 records / 4x4 matrices; >= 100 sequences (k-means seeds) outside.", ref="DESIGN.md §4 C03"),
- "C04": dict(text="Bounded model checking of kalign_run's orchestration with every stage a recorder answering arbitrarily: input whose status is not UNALIGNED is de-aligned before the canonical sort and before anything else reads it, stages run in the required order, and failures propagate; together with the reader post-conditions of C05 (only letters stored, punctuation counted as gaps) and C13 (kind decision ignores non-letters) this is the presentation-independence mechanism.",
-             note="Trusted: stage stubs stand for the real stages (each checked in its own property). Not decided here: equivalence of two different presentations through the real readers end to end (reader harnesses are single-run), main()'s stdin/multi-file plumbing.", ref="DESIGN.md §4 C04"),
- "C05": dict(text="CBMC's memory-safety and UB checks (bounds, pointer validity, NULL, double free, signed overflow, shifts, leaks) on the real FASTA reader over every byte sequence within the line bound, on the alphabet conversion for every letter, on the array entry point, on the allocate/resize/free life cycles of every library object and on the command-line glue; failures must be reported as FAIL.",
+ "C04": dict(text="Bounded model checking: (O1) the real FASTA reader agrees, for every byte sequence within the line bound, with an independent normal form (letters kept in order, punctuation counted as gaps at its position, everything else ignored, histogram = characters of the sequence lines) - so wrapping, blank lines and padding cannot matter; (O2) kalign_run's orchestration with every stage a recorder: input whose status is not UNALIGNED is de-aligned before anything else reads it, and detect_aligned / dealign_msa classify and clear symbolic gap vectors as documented; (O4) merge_msa concatenates the records of several inputs in order with summed histograms.",
+             note="Trusted: stage stubs stand for the real stages (each checked in its own property); allocation model for readers. Not decided: Clustal / MSF normal forms (those readers give no verdict in the budget), main()'s stdin / multi-file plumbing, > 3 records for status detection.", ref="DESIGN.md §4 C04"),
+ "C05": dict(text="CBMC's memory-safety and UB checks (bounds, pointer validity, NULL, double free, signed overflow, shifts, leaks) on the real raw-input stage (getline stub delivering arbitrary bytes), on the real FASTA reader over every byte sequence within the line bound together with a functional normal-form oracle (accept / reject exactly as documented), on the alphabet conversion for every letter, on the array entry point, on the allocate / resize / free life cycles of every library object (incl. the input check dropping empty records, and member lists rebuilt for a growing count) and on the command-line glue incl. main()'s option switch; failures must be reported as FAIL.",
              note="Trusted: input-buffer construction as read_file_stdin would build it, allocation model for reader harnesses, ctype tables. Clustal/MSF/auto-detected readers are only attempted in the thorough tier (no verdict within 1500 s at 3 lines x 3 bytes); getopt and real file descriptors outside.", ref="DESIGN.md §4 C05"),
  "C07": dict(text="Bounded model checking end to end with IEEE floats bit-precise: the Hirschberg recursion of the real sequence-sequence kernels is explored as a tree of split decisions, the solver enumerating for each step on a concrete rectangle every way the real aln_continue can split (UNSAT = enumeration complete for all residues) and, at every leaf, proving for all residues that the returned path is valid and scores within the safe margin of an independent full-matrix optimum.",
              note="Trusted: worklist stub in place of the recursive calls (goto-instrument --replace-calls; validated natively against the real recursion), HIGH/LOW bracket oracle (validated natively on 63.5M pairs), 4 letters per alphabet, sizes <= 3x3 quick / 4x5 thorough; profile kernels and the >= 500-column parallel branch are outside.", ref="DESIGN.md §4 C07",
